@@ -563,6 +563,24 @@ static std::string run_case_inner(const std::vector<std::string>& w)
             ev = n.same ? n.value : "NOT-THE-SAME-OBJECT " + n.value;
         }
         if (a != e || a != ev) return "CHAIN-DIFFER statements=" + a + " named=" + e + " value=" + ev;
+        // the value category of the formatter at the point of observation: std::move(named) (copies of f, so that f stays
+        // intact), and — when the case supplies no argument at all — a temporary read directly, without any chain
+        {
+            F m1 = f, m2 = f, m3 = f;
+            std::string r1 = observe([&] { return std::move(m1).str(); });
+            std::string r2 = observe([&] { std::string s = std::move(m2); return s; });
+            std::string r3 = observe([&] { std::ostringstream os; os << std::move(m3); return os.str(); });
+            std::string t1 = a, t2 = a;
+            bool none = true;
+            for (auto& o : ops) if (!o.vals.empty()) none = false;
+            if (none)
+            {
+                t1 = observe([&] { return nitro::format(fmt).str(); });
+                t2 = observe([&] { std::string s = nitro::format(fmt); return s; });
+            }
+            if (a != r1 || a != r2 || a != r3 || a != t1 || a != t2)
+                return "RVALUE-DIFFER lvalue=" + a + " moved.str=" + r1 + " moved.conv=" + r2 + " moved.os=" + r3 + " temp.str=" + t1 + " temp.conv=" + t2;
+        }
         if (a != b || a != c || a != d) return "ROUTES-DIFFER str=" + a + " conv=" + b + " os=" + c + " cstr=" + d;
         return a;
     }
@@ -594,9 +612,17 @@ static std::string run_case_inner(const std::vector<std::string>& w)
         if (!parse_ops(w, 2, w.size(), ops)) return "BADCASE";
         F f = nitro::format(vh::unhex(w[1]));
         if (!apply_ops(f, ops, false)) return "BADCASE";
-        std::string what;
+        std::string what, what_moved;
         try { nitro::raise("pre:", f, "!"); }
         catch (const nitro::except::exception& e) { what = e.what(); }
+        {
+            F m = f;
+            try { nitro::raise("pre:", std::move(m), "!"); } // the formatter as an rvalue argument
+            catch (const nitro::except::exception& e) { what_moved = e.what(); }
+        }
+        const bool arity = !(what.size() >= 5 && what.compare(0, 4, "pre:") == 0 && what.back() == '!');
+        const bool arity_moved = !(what_moved.size() >= 5 && what_moved.compare(0, 4, "pre:") == 0 && what_moved.back() == '!');
+        if (arity != arity_moved || (!arity && what != what_moved)) return "W-RVALUE-DIFFER " + vh::hex(what) + " " + vh::hex(what_moved);
         if (what.size() >= 5 && what.compare(0, 4, "pre:") == 0 && what.back() == '!') return "W " + vh::hex(what);
         return "W-ARITY";
     }
